@@ -388,6 +388,7 @@ type LoopSpec struct {
 	Opts       map[string]string
 	Uses       []*Clause
 	BackUses   []*Clause // use at back: instantiated in the back-edge state, iter() = iteration start
+	Splits     []*Clause // split c1 | c2 | ... inside a loop block
 }
 
 type AssertSpec struct {
@@ -833,6 +834,12 @@ func LoadSpecFile(path, pkg string) (sf *SpecFile, err error) {
 			for _, part := range splitTop(l.rest, '|') {
 				if strings.Contains(part, "||") {
 					panic(l.pos + ": use single | between split cases")
+				}
+				if curLoop != nil {
+					// loop-level case split: obligations inside the loop are solved per case of the
+					// loop-head state (e.g. one case per value of a small counter)
+					curLoop.Splits = append(curLoop.Splits, must(mkClause("split", part, l.pos)))
+					continue
 				}
 				cur.Splits = append(cur.Splits, must(mkClause("split", part, l.pos)))
 			}
